@@ -123,7 +123,52 @@ fn ident_shown(buf: &[u8]) -> Sigs {
     out
 }
 
+/// heading / ground speed / vertical rate of a record against the latest report that carried them
+fn tracker_velocity_mismatch<H: Copy + Into<f64> + std::fmt::Debug, S: Copy + Into<f64> + std::fmt::Debug, V: Copy + Into<i64> + std::fmt::Debug>(want: Option<(f64, f64, i64)>, shown: (Option<H>, Option<S>, Option<V>)) -> Option<String> {
+    match (want, shown) {
+        (None, (None, None, None)) => None,
+        (Some((h, sp, vr)), (Some(ah), Some(asp), Some(avr))) => {
+            let (ah, asp, avr): (f64, f64, i64) = (ah.into(), asp.into(), avr.into());
+            if (ah - h).abs() > 1e-3 || (asp - sp).abs() > 1e-3 * sp.max(1.0) || avr != vr {
+                Some(format!("the tracker record shows heading {ah}, speed {asp}, vertical rate {avr}; the latest report with a derived velocity gives {h}, {sp}, {vr}"))
+            } else {
+                None
+            }
+        }
+        (w, s) => Some(format!("the tracker record shows heading/speed/rate {s:?}; the latest report with a derived velocity gives {w:?}")),
+    }
+}
+
 pub fn replay(pid: &'static str, v: &Value) -> Vec<Failure> {
+    if v.get("kind").and_then(|k| k.as_str()) == Some("serde_code") {
+        let Some(b) = v.get("hex").and_then(|h| h.as_str()).and_then(bits::unhex) else { return vec![] };
+        return match crate::configs::serde_frame(&b) {
+            Some(m) => vec![Failure { sig: format!("C09/serde_code/{}", refdec::class_of(&b)), msg: m, replay: v.clone() }],
+            None => vec![],
+        };
+    }
+    if v.get("kind").and_then(|k| k.as_str()) == Some("tracker_velocity") {
+        // the velocity reports of one aircraft in order, to a record that starts with the first
+        let mut planes = rsadsb_common::Airplanes::new();
+        let mut want = None;
+        let mut out = vec![];
+        for h in v["history"].as_array().cloned().unwrap_or_default() {
+            let Some(b) = h.as_str().and_then(bits::unhex) else { continue };
+            if let Decoded::Ok(f) = decode(&b) {
+                if let Some(x) = refdec::velocity_calc(&b[4..11]) {
+                    want = Some(x);
+                }
+                planes.action(f, (52.0, 4.0), 500.0);
+                if let Some(shown) = planes.get(ICAO([0xab, 0xc0, 0x01])).map(|s| (s.heading, s.speed, s.vert_speed)) {
+                    if let Some(m) = tracker_velocity_mismatch(want, shown) {
+                        out.push(Failure { sig: "C07/tracker_velocity".into(), msg: m, replay: v.clone() });
+                        break;
+                    }
+                }
+            }
+        }
+        return out;
+    }
     if v.get("kind").and_then(|k| k.as_str()) == Some("tracker_callsign") {
         // the identifications of one aircraft in order: the record shows the last one
         let mut planes = rsadsb_common::Airplanes::new();
@@ -138,6 +183,14 @@ pub fn replay(pid: &'static str, v: &Value) -> Vec<Failure> {
                 planes.verif_backdate(ICAO([0xab, 0xc0, 0x01]), std::time::Duration::from_secs(3));
                 planes.action(f, (52.0, 4.0), 500.0);
                 planes.prune(2);
+                if b[10] % 4 == 0 {
+                    let rx = if b[9] % 2 == 0 { (52.0, 4.0) } else { (35.0, -80.0) };
+                    for hx in ["8dabc00158c382d690c8ac2863a7", "8dabc00158c386435cc412692ad6"] {
+                        if let Some(Decoded::Ok(p)) = bits::unhex(hx).map(|x| decode(&x)) {
+                            planes.action(p, rx, 500.0);
+                        }
+                    }
+                }
             }
         }
         let shown = planes.get(ICAO([0xab, 0xc0, 0x01])).and_then(|s| s.callsign.clone());
@@ -314,6 +367,14 @@ pub fn run_c09(ctx: &Ctx) -> ! {
                         sample_frame(st, "identity code x carrier", &b);
                     }
                     run_case(st, "fields", &b, &eval);
+                    // the code survives the crate's serde presentation (JSON) unchanged
+                    if j == 0 {
+                        st.eval();
+                        if let Some(m) = crate::configs::serde_frame(&b) {
+                            let class = refdec::class_of(&b);
+                            st.fail(Failure { sig: format!("C09/serde_code/{class}"), msg: format!("identity code {code:#06x}: {m} (frame {})", bits::hex(&b)), replay: json!({"kind": "serde_code", "hex": bits::hex(&b)}) });
+                        }
+                    }
                 }
             }
         }
@@ -435,6 +496,17 @@ pub fn run_c08(ctx: &Ctx) -> ! {
                             planes.verif_backdate(key, std::time::Duration::from_secs(3));
                             planes.action(f2, (52.0, 4.0), 500.0);
                             planes.prune(2);
+                            // every fourth time a pair of position reports follows: accepted
+                            // (near the receiver) or refused by the range check - neither
+                            // carries an identification
+                            if b[10] % 4 == 0 {
+                                let rx = if b[9] % 2 == 0 { (52.0, 4.0) } else { (35.0, -80.0) };
+                                for hx in ["8dabc00158c382d690c8ac2863a7", "8dabc00158c386435cc412692ad6"] {
+                                    if let Some(Decoded::Ok(p)) = bits::unhex(hx).map(|x| decode(&x)) {
+                                        planes.action(p, rx, 500.0);
+                                    }
+                                }
+                            }
                             planes.get(key).and_then(|s| s.callsign.clone())
                         }));
                         if let Ok(shown) = r {
@@ -741,6 +813,84 @@ pub fn run_c07(ctx: &Ctx) -> ! {
             }
         }
         st.class_n("derived velocity in the alloc-only build", n as u64);
+    }
+    // (g) ... and it is what the tracker shows for that aircraft from then on: one long-lived
+    // record receives a walk of velocity reports, each differing from its predecessor in one
+    // group of fields only (rate, rate sign, components, direction, subtype, "no information")
+    {
+        let mut rng = ctx.rng(78, 0);
+        let n = ctx.tier.pick(60_000usize, 1_500_000);
+        let mut planes = rsadsb_common::Airplanes::new();
+        let mut cur = vel_frame(&mut rng, 17, 1);
+        let mut hist: std::collections::VecDeque<String> = Default::default();
+        let mut want: Option<(f64, f64, i64)> = None;
+        for _ in 0..n {
+            match rng.below(8) {
+                0 | 1 => {
+                    let vr = 1 + rng.below(511);
+                    set(&mut cur, 32 + 38, 9, vr);
+                }
+                2 => {
+                    let sgn = get(&cur, 32 + 37, 1) ^ 1;
+                    set(&mut cur, 32 + 37, 1, sgn);
+                }
+                3 => {
+                    let (e, nn) = (1 + rng.below(1023), 1 + rng.below(1023));
+                    set(&mut cur, 32 + 15, 10, e);
+                    set(&mut cur, 32 + 26, 10, nn);
+                }
+                4 => {
+                    let at = if rng.chance(1, 2) { 32 + 14 } else { 32 + 25 };
+                    let d = get(&cur, at, 1) ^ 1;
+                    set(&mut cur, at, 1, d);
+                }
+                5 => {
+                    let stp = *rng.pick(&[1u64, 2, 1, 2, 3, 0]);
+                    set(&mut cur, 32 + 6, 3, stp);
+                }
+                6 => {
+                    let at = *rng.pick(&[32 + 38usize, 32 + 15, 32 + 26]);
+                    let w = if at == 32 + 38 { 9 } else { 10 };
+                    set(&mut cur, at, w, 0);
+                }
+                _ => {
+                    let df = if rng.chance(1, 4) { 18 } else { 17 };
+                    let fresh = vel_frame(&mut rng, df, 1);
+                    // everything but the ground vector and the vertical rate changes
+                    let keep: Vec<(usize, usize, u64)> = [(32 + 14, 22), (32 + 36, 11)].iter().map(|(a, w)| (*a, *w, get(&cur, *a, *w))).collect();
+                    cur = fresh;
+                    for (a, w, v) in keep {
+                        set(&mut cur, a, w, v);
+                    }
+                }
+            }
+            set(&mut cur, 9, 24, 0xabc001);
+            bits::fix_parity(&mut cur, 0);
+            let Decoded::Ok(f) = decode(&cur) else { continue };
+            st.eval();
+            st.nontrivial_enum += 1;
+            if let Some(v) = refdec::velocity_calc(&cur[4..11]) {
+                want = Some(v);
+            }
+            hist.push_back(bits::hex(&cur));
+            if hist.len() > 6 {
+                hist.pop_front();
+            }
+            let r = std::panic::catch_unwind(std::panic::AssertUnwindSafe(|| {
+                planes.action(f, (52.0, 4.0), 500.0);
+                planes.get(ICAO([0xab, 0xc0, 0x01])).map(|s| (s.heading, s.speed, s.vert_speed))
+            }));
+            let Ok(Some(shown)) = r else { continue };
+            if let Some(m) = tracker_velocity_mismatch(want, shown) {
+                st.fail(Failure {
+                    sig: "C07/tracker_velocity".into(),
+                    msg: format!("{m} (the aircraft's last reports: {:?})", hist),
+                    replay: json!({"kind": "tracker_velocity", "history": hist.iter().cloned().collect::<Vec<_>>()}),
+                });
+                break;
+            }
+        }
+        st.class_n("velocity reports of one aircraft through the tracker", n as u64);
     }
     st.exhaustive.push("all 2^22 (E/W sign, E/W, N/S sign, N/S) words x subtypes {1,2}".into());
     st.exhaustive.push("all 2^11 (source, sign, rate) x 8 subtypes x {DF17,DF18}".into());
